@@ -1,5 +1,6 @@
 import Octo.Drv.Codec
 import Octo.Model.TypingBodies
+import Octo.Model.TypingCovers
 /-! C08 driver: what the typing model prints for an op line, and the property oracle (judge).
     Op and output formats: see `harness/c08.go`. -/
 namespace Octo.Drv.C08
@@ -248,8 +249,11 @@ def judgeEv (out : List String) : String :=
       match parseP tree with
       | some (p, []) =>
         let tys := (preorder p).map PExpr.ty
+        -- `ok` is annotated when the line lies outside the hypotheses of `Octo.C08.typing_sound` (it is judged all the same)
+        let okMsg := if !coalesceOk p then "ok outside-theorem:coalesce-not-covered"
+          else if hasMisTypedConst p then "ok outside-theorem:mistyped-constant" else "ok"
         let rec go (i : Nat) : List (List String) → String
-          | [] => "ok"
+          | [] => okMsg
           | r :: rs =>
             match parseRowVals r with
             | none => "bad unparsable-row"
